@@ -77,9 +77,11 @@ def sig_key(c):
     return f"{c['kind']}_{WIDX[c['w']]}"
 
 
-def build_project(cases):
-    """One schema + one queries file covering every (kind, wrapper) signature in the three positions."""
+def build_project(cases, subscriptions=False):
+    """One schema + one queries file covering every (kind, wrapper) signature in the three positions (+ the two
+    subscription positions when the client is asynchronous)."""
     sigs = sorted({(c["kind"], c["w"]) for c in cases})
+    sfields = []
     sdl = ["scalar Stamp", "scalar Day", "scalar Raw", "enum Color { RED GREEN in }", "input Leaf { x: Int y: Int }"]
     qfields, ops = [], []
     for kind, w in sigs:
@@ -93,6 +95,11 @@ def build_project(cases):
         ops.append(f"query OpV_{k}($a: {t}) {{ echoV_{k}(a: $a) }}")
         ops.append(f"query OpF_{k}($i: FIn_{k}) {{ echoF_{k}(i: $i) }}")
         ops.append(f"query OpN_{k}($o: NOut_{k}) {{ echoN_{k}(o: $o) }}")
+        if subscriptions:
+            sfields.append(f"  subV_{k}(a: {t}): Boolean")
+            sfields.append(f"  subF_{k}(i: FIn_{k}): Boolean")
+            ops.append(f"subscription OpSV_{k}($a: {t}) {{ subV_{k}(a: $a) }}")
+            ops.append(f"subscription OpSF_{k}($i: FIn_{k}) {{ subF_{k}(i: $i) }}")
     rfields = []
     for kind, w in sigs:
         if kind not in ("ser", "native", "raw"):
@@ -108,11 +115,13 @@ def build_project(cases):
         sdl.append("type RT {\n  pad: Int\n  child: RT\n" + "\n".join(rfields) + "\n}")
         qfields.append("  res: RT")
     sdl.append("type Query {\n" + "\n".join(qfields) + "\n}")
+    if sfields:
+        sdl.append("type Subscription {\n" + "\n".join(sfields) + "\n}")
     return "\n".join(sdl) + "\n", "\n\n".join(ops) + "\n"
 
 
 def generate_project(work, cases, options, tag):
-    sdl, qs = build_project(cases)
+    sdl, qs = build_project(cases, subscriptions=bool(options.get("async_client")))
     job = write_job(work.dir / f"job_{tag}", schema=sdl, queries=qs, package="gclient",
                     options=dict(options, files_to_include=["scalars_mod.py"]), scalars=SCALARS_CFG,
                     files={"scalars_mod.py": SCALARS_MOD})
